@@ -32,8 +32,8 @@ LEVEL_TEXT = ('Coq theorems over an executable Gallina model of the gate every c
               '_callCommand, the gating converters and the exception-catching contexts of commands.py, Spec.__call__, state.errored, DefaultCapabilities.setValue, '
               'ircdb.checkIgnored, PluginMixin.__call__ and the decision prefix of Owner.doPrivmsg), built on C03\'s model of ircdb.checkCapability: body runs => every '
               'asked name passes (no anti-capability, default-allow or capability); Owner/Admin (any plugin name) refused through C03\'s anti-symmetry; body runs => every '
-              'top-level gating converter was answered True; -owner stays in the default set for every setValue sequence whose values do not contain `owner` (refuted '
-              'otherwise: finding C01.a); ignored callers get no event; inventory lemmas by reflection over a table regenerated from all plugin sources.  Tie: regenerated '
+              'top-level gating converter was answered True; -owner stays in (and owner out of) the default set for EVERY setValue sequence without allowDefaultOwner '
+              '(the former finding C01.a is repaired); ignored callers get no event; inventory lemmas by reflection over a table regenerated from all plugin sources.  Tie: regenerated '
               'tables + differential run of the extracted model on a harness plugin + live differential run over all commands of all loaded plugins.')
 LEVEL_NOTE = ('Trusted: Coq kernel, gen_tables.py, extraction + driver, harness.  The 60 plugin bodies are not modelled: in-body capability checks and plugin-registered '
               'gating converters are covered by the live run only.  User lookup and ignore-list matching are inputs.')
@@ -1527,8 +1527,9 @@ def case_setvalue(ctx, B, seq, mo, kind='setvalue'):
     if mo is not None and sorted(wire.ls(mo)) != final:
         ctx.disagree(inp, sorted(wire.ls(mo)), final, 'DefaultCapabilities.setValue sequence')
     if not any(a for _, a in seq):
-        if '-owner' not in final:
-            ctx.fail(inp, "after setValue(%r) without allowDefaultOwner the default set is %r: '-owner' is missing" % (seq[-1][0] if seq else None, final))
+        if '-owner' not in final or 'owner' in final:
+            ctx.fail(inp, "after setValue(%r) without allowDefaultOwner the default set is %r: %s" % (seq[-1][0] if seq else None, final,
+                                                                                                  "'-owner' is missing" if '-owner' not in final else "'owner' is in it"))
         elif unknown_owner:
             ctx.fail(inp, 'an unknown caller holds owner although -owner is in the default set %r' % final)
     return init
@@ -1590,10 +1591,7 @@ def run_ignored_cases(ctx, B):
 
 
 # ---------------------------------------------------------------- entry points
-CLASSES = {
-    # a value containing `owner` handed to DefaultCapabilities.setValue: the membership test is satisfied by the inverse capability
-    'default_owner_value': lambda inp: inp.get('op') == 'setvalue' and any((not a) and any(c.lower() == 'owner' for c in v) for v, a in inp['values']),
-}
+CLASSES = {}      # no known finding: C01.a (default set {owner}) is repaired; its witness F_DEFAULT runs first on every check
 
 
 def run(ctx):
